@@ -1,7 +1,11 @@
 (* Extraction of the executable model (Model/* only — independent of Proofs).
-   ExtrOcamlBasic only: bool/option/list/prod/unit/sumbool map to OCaml natives;
+   ExtrOcamlBasic only: bool/option/list/prod/unit/sumbool/sum map to OCaml natives;
    Z / positive / nat stay the extracted inductives.  No Extract Constant. *)
 From Coq Require Extraction ExtrOcamlBasic.
-From PW Require Import Model.Base Model.SigTypes Model.Base64.
+From PW Require Import Model.Base Model.SigTypes Model.Base64 Model.Utf8 Model.Cbor Model.Json Model.AuthData
+  Model.Oracles Model.ClientData Model.CredJson Model.Cose Model.SigAlg Model.VerifyAuth.
 Extraction Language OCaml.
-Extraction "model.ml" b64url_enc b64url_dec b64std_enc be_int slice.
+Extraction "model.ml" b64url_enc b64url_dec b64std_enc be_int slice
+  cbor_loads cbor_enc parse_auth_data parse_backup_flags aaguid_to_string
+  parse_client_data parse_auth_cred_json parse_reg_cred_json decode_credential_public_key to_crypto
+  verify_signature hash_by_alg verify_auth counter_ok rp_step bind.
